@@ -58,6 +58,8 @@ def replay(job):
                     # a matching pattern may occur on several lines (what counts is that every PATTERN is found, not how many matches there are)
                     lines += [["ver=" + old, "pep=" + pep, "rel <%s>" % old][j]] * rng.choice([1, 1, 2, 3])
             proj.write(name, "\n".join(lines) + "\n")
+            if fault["kind"] == "nomatch" and fault["k"] == k + 1 and seed % 6 == 4:
+                proj.write(name, "")            # the file is there but empty (zero bytes): none of its patterns has a match
         proj.write("other.txt", "unrelated %s\n" % old)
         fv = None
         env = None
